@@ -9,7 +9,9 @@ import (
 // CheckAddSub checks an in-place (x,y) <- (x+y, x-y) on every pair, plus x=y aliasing on the diagonal.
 func (f *Field) CheckAddSub(r Reporter, do func(x, y Elem), xs, ys *Set) {
 	var evals int64
+	rows := newRows(r, xs.Len())
 	f.par(xs.Len(), func(i int) {
+		r := Reporter(rows[i])
 		if r.Expired() {
 			return
 		}
@@ -37,6 +39,7 @@ func (f *Field) CheckAddSub(r Reporter, do func(x, y Elem), xs, ys *Set) {
 		atomic.AddInt64(&evals, ev)
 		r.Eval(int(ev))
 	})
+	flushRows(r, rows)
 	r.Count(f.Name+".AddSub", int(evals))
 }
 
@@ -44,7 +47,9 @@ func (f *Field) CheckAddSub(r Reporter, do func(x, y Elem), xs, ys *Set) {
 // (only selectors the API defines), and that y is untouched.
 func (f *Field) CheckCmov(r Reporter, name string, do func(x, y Elem, b int), sel []int, xs, ys *Set) {
 	var evals, exact int64
+	rows := newRows(r, xs.Len())
 	f.par(xs.Len(), func(i int) {
+		r := Reporter(rows[i])
 		var ev, ex int64
 		for j := 0; j < ys.Len(); j++ {
 			for _, b := range sel {
@@ -78,6 +83,7 @@ func (f *Field) CheckCmov(r Reporter, name string, do func(x, y Elem, b int), se
 		atomic.AddInt64(&exact, ex)
 		r.Eval(int(ev))
 	})
+	flushRows(r, rows)
 	r.Count(f.Name+"."+name, int(evals))
 	r.Count(f.Name+"."+name+".bit-exact", int(exact))
 }
@@ -85,7 +91,9 @@ func (f *Field) CheckCmov(r Reporter, name string, do func(x, y Elem, b int), se
 // CheckCswap checks (x,y) <- (b ? (y,x) : (x,y)).
 func (f *Field) CheckCswap(r Reporter, name string, do func(x, y Elem, b int), sel []int, xs, ys *Set) {
 	var evals int64
+	rows := newRows(r, xs.Len())
 	f.par(xs.Len(), func(i int) {
+		r := Reporter(rows[i])
 		var ev int64
 		for j := 0; j < ys.Len(); j++ {
 			for _, b := range sel {
@@ -115,6 +123,7 @@ func (f *Field) CheckCswap(r Reporter, name string, do func(x, y Elem, b int), s
 		atomic.AddInt64(&evals, ev)
 		r.Eval(int(ev))
 	})
+	flushRows(r, rows)
 	r.Count(f.Name+"."+name, int(evals))
 }
 
@@ -126,7 +135,9 @@ func (f *Field) CheckCswap(r Reporter, name string, do func(x, y Elem, b int), s
 // false; that is only counted, not demanded.
 func (f *Field) CheckInvSqrt(r Reporter, name string, do func(z, x, y Elem) bool, xs, ys *Set) {
 	var evals, qr, nqr, zeroX, undef, negOK int64
+	rows := newRows(r, xs.Len())
 	f.par(xs.Len(), func(i int) {
+		r := Reporter(rows[i])
 		if r.Expired() {
 			return
 		}
@@ -202,6 +213,7 @@ func (f *Field) CheckInvSqrt(r Reporter, name string, do func(z, x, y Elem) bool
 			}
 		}
 	})
+	flushRows(r, rows)
 	r.Count(f.Name+"."+name, int(evals))
 	r.Count(f.Name+"."+name+".square", int(qr))
 	r.Count(f.Name+"."+name+".nonsquare", int(nqr))
